@@ -223,9 +223,11 @@ Fixpoint mon_run (m : mon) (tr : list ev) : option mon :=
 
 (* ================================================================ Part 3: the connection *)
 
-Record variant := { v_clear_handles : bool; v_log_serial : bool; v_share_header : bool; v_alias_buf : bool }.
+Record variant := { v_clear_handles : bool; v_log_serial : bool; v_share_header : bool; v_alias_buf : bool;
+                    v_share_merged : bool }.
 Definition repaired : variant :=
-  {| v_clear_handles := false; v_log_serial := false; v_share_header := false; v_alias_buf := false |}.
+  {| v_clear_handles := false; v_log_serial := false; v_share_header := false; v_alias_buf := false;
+     v_share_merged := false |}.
 
 Inductive mstage := MNone | MRead | MQ | MW | MC (i : nat).      (* not parsed | with the reader | in msgChan | with the writer | handed to caller i *)
 Inductive cstage := CNone | COpQ | CActQ | COut | CRepl (l : loc) | CDone (l : loc).
@@ -441,7 +443,11 @@ Definition step (v : variant) (s : st) (c : choice) : option (st * list ev) :=
         let pre := [ERecv W (KMsg n); EAcc W LConn false; EAcc W (LMsg n) false] ++
                    (if v_alias_buf v then [EAcc W LBuf false] else []) ++ [EAcc W LRecord false] in
         let reply :=   (* defaultReplyEvent: ReplyBody, header.ReplyID = ..., curSeq, conn.Write, ExtensionFields *)
-          Some (set_mst s n MW, pre ++ [EAcc W (LMsg n) true; EAcc W LSerial true; EAcc W LRecord true]) in
+          Some (set_mst s n MW, pre ++ [EAcc W (LMsg n) true; EAcc W LSerial true; EAcc W LRecord true] ++
+                (* (defects a3fb0a0 / 4b6a3bd: two message objects sharing one *JTMessage / header - the message merged
+                   from sub-packages and the last sub-packet; the re-request record and the first packet - so that
+                   answering message n (Header.Encode) writes the header of message n+1, which the reader holds) *)
+                (if v_share_merged v then [EAcc W (LMsg (S n)) true] else [])) in
         match resp with
         | Some i =>   (* onActiveRespondEvent found the waiting command i: onActiveCompleteEvent(record, msg) *)
             match cst s i with
